@@ -11,7 +11,7 @@ _TABLE = None
 def table():
     global _TABLE
     if _TABLE is None:
-        _TABLE = gen_tables.schema_table()
+        _TABLE = gen_tables.live_or_snapshot("schema_table", gen_tables.schema_table, drop=("modules",))
     return _TABLE
 
 
